@@ -1439,6 +1439,8 @@ impl Stack {
 
     /// Steal a message from another queue.
     fn steal(&self) -> Option<Message> {
+        #[cfg(feature = "verif-hooks")]
+        verif::yield_point(self.index, verif::Point::Steal);
         // For fairness, try to steal from index + 1, index + 2, ... len - 1,
         // then wrap around to 0, 1, ... index - 1.
         let (left, right) = self.stealers.split_at(self.index);
@@ -1496,11 +1498,15 @@ impl<'s> Worker<'s> {
     /// The worker will call the caller's callback for all entries that aren't
     /// skipped by the ignore matcher.
     fn run(mut self) {
+        #[cfg(feature = "verif-hooks")]
+        verif::yield_point(self.stack.index, verif::Point::WorkerStart);
         while let Some(work) = self.get_work() {
             if let WalkState::Quit = self.run_one(work) {
                 self.quit_now();
             }
         }
+        #[cfg(feature = "verif-hooks")]
+        verif::yield_point(self.stack.index, verif::Point::WorkerExit);
     }
 
     fn run_one(&mut self, mut work: Work) -> WalkState {
@@ -1702,6 +1708,13 @@ impl<'s> Worker<'s> {
                         // CPU waiting, we let the thread sleep for a bit. In
                         // general, this tends to only occur once the search is
                         // approaching termination.
+                        #[cfg(feature = "verif-hooks")]
+                        if verif::yield_point(
+                            self.stack.index,
+                            verif::Point::IdleSleep,
+                        ) {
+                            continue;
+                        }
                         let dur = std::time::Duration::from_millis(1);
                         std::thread::sleep(dur);
                     }
@@ -1712,37 +1725,110 @@ impl<'s> Worker<'s> {
 
     /// Indicates that all workers should quit immediately.
     fn quit_now(&self) {
+        #[cfg(feature = "verif-hooks")]
+        verif::yield_point(self.stack.index, verif::Point::QuitNow);
         self.quit_now.store(true, AtomicOrdering::SeqCst);
     }
 
     /// Returns true if this worker should quit immediately.
     fn is_quit_now(&self) -> bool {
+        #[cfg(feature = "verif-hooks")]
+        verif::yield_point(self.stack.index, verif::Point::IsQuitNow);
         self.quit_now.load(AtomicOrdering::SeqCst)
     }
 
     /// Send work.
     fn send(&self, work: Work) {
+        #[cfg(feature = "verif-hooks")]
+        verif::yield_point(self.stack.index, verif::Point::Send);
         self.stack.push(Message::Work(work));
     }
 
     /// Send a quit message.
     fn send_quit(&self) {
+        #[cfg(feature = "verif-hooks")]
+        verif::yield_point(self.stack.index, verif::Point::SendQuit);
         self.stack.push(Message::Quit);
     }
 
     /// Receive work.
     fn recv(&self) -> Option<Message> {
+        #[cfg(feature = "verif-hooks")]
+        verif::yield_point(self.stack.index, verif::Point::Recv);
         self.stack.pop()
     }
 
     /// Deactivates a worker and returns the number of currently active workers.
     fn deactivate_worker(&self) -> usize {
+        #[cfg(feature = "verif-hooks")]
+        verif::yield_point(self.stack.index, verif::Point::Deactivate);
         self.active_workers.fetch_sub(1, AtomicOrdering::Acquire) - 1
     }
 
     /// Reactivates a worker.
     fn activate_worker(&self) {
+        #[cfg(feature = "verif-hooks")]
+        verif::yield_point(self.stack.index, verif::Point::Activate);
         self.active_workers.fetch_add(1, AtomicOrdering::Release);
+    }
+}
+
+/// Verification hooks (feature `verif-hooks` only, off by default).
+///
+/// The parallel walker calls [`verif::yield_point`] at each of its
+/// synchronisation points. When no hook is installed this is a no-op. An
+/// installed hook may block the calling worker, which lets an external
+/// scheduler serialise the workers and choose their interleaving.
+#[cfg(feature = "verif-hooks")]
+pub mod verif {
+    use std::sync::{Arc, RwLock};
+
+    /// A synchronisation point of the parallel walker.
+    #[derive(Clone, Copy, Debug, Eq, Hash, PartialEq)]
+    pub enum Point {
+        /// A worker thread starts running.
+        WorkerStart,
+        /// A worker thread left its work loop and is about to return.
+        WorkerExit,
+        /// A worker is about to push a work item on its own deque.
+        Send,
+        /// A worker is about to push a quit message on its own deque.
+        SendQuit,
+        /// A worker is about to pop from its own deque (and steal if empty).
+        Recv,
+        /// A worker found its own deque empty and is about to steal.
+        Steal,
+        /// A worker is about to decrement the active worker counter.
+        Deactivate,
+        /// A worker is about to increment the active worker counter.
+        Activate,
+        /// A worker is about to read the quit flag.
+        IsQuitNow,
+        /// A worker is about to set the quit flag.
+        QuitNow,
+        /// A worker found nothing to do and is about to sleep. If the hook
+        /// returns `true` the sleep is skipped.
+        IdleSleep,
+    }
+
+    /// The type of an installed hook: called with the index of the worker
+    /// and the point it reached.
+    pub type Hook = dyn Fn(usize, Point) -> bool + Send + Sync + 'static;
+
+    static HOOK: RwLock<Option<Arc<Hook>>> = RwLock::new(None);
+
+    /// Install (or, with `None`, remove) the process-wide hook.
+    pub fn set_hook(hook: Option<Arc<Hook>>) {
+        *HOOK.write().unwrap() = hook;
+    }
+
+    /// Called by the walker at each synchronisation point.
+    pub(crate) fn yield_point(worker: usize, point: Point) -> bool {
+        let hook = HOOK.read().unwrap().clone();
+        match hook {
+            None => false,
+            Some(hook) => hook(worker, point),
+        }
     }
 }
 
